@@ -48,6 +48,9 @@ def parse(line):
         elif e.startswith("@pre"):
             _, l, f, k, tg, ts, arg, sn = e.split(" ")
             ents.append({"t": "pre", "l": int(l), "fid": int(f), "kind": int(k), "target": int(tg), "tstatus": int(ts), "v": arg, "snap": sn})
+        elif e.startswith("@ret"):
+            _, f, v, sn = e.split(" ")
+            ents.append({"t": "ret", "fid": int(f), "v": v, "snap": sn})
         elif e.startswith("@snd"):
             _, l, f, sg, v, sn = e.split(" ")
             ents.append({"t": "snd", "l": int(l), "fid": int(f), "sig": int(sg), "v": v, "snap": sn})
@@ -100,39 +103,48 @@ def check(line, info, stats):
                 bad.append(("finished_never_resumes", "fiber %d not in error state after resuming finished fiber %d" % (p, e["target"])))
     # ---- R3 values unchanged and in order (adjacent send/receive pairs)
     ops = info["op"]
+    last_pre = {}
     for i, e in enumerate(ents):
+        if e["t"] == "pre":
+            last_pre[(e["l"], e["fid"])] = e
         if e["t"] != "ev" or i == 0:
             continue
         op = ops.get(e["l"])
         pv = ents[i - 1]
         kind = op[0] if op else None
-        if kind in ("yield", "signal", "propagate", "Mreturn"):
-            # a suspended instruction completed: it must have been woken by the immediately preceding resume / next
-            if e["v"].startswith('"cannot_resume'):
-                continue
+        if kind in ("yield", "signal", "debug", "Mreturn"):
+            # DOWN: a suspended (childless) instruction completes only because a resume / next woke it, and it sees
+            # exactly the value that was passed (nil for next).  Later iterations of an `each` loop issue their `next`
+            # inside the macro, where it cannot be logged: there the preceding entry is the end of the loop body.
             stats["down_values"] = stats.get("down_values", 0) + 1
-            if pv["t"] == "ev" and e["v"] == "nil":
-                # woken by the `next` of a later iteration of an `each` loop (only the loop entry is logged)
+            if pv["t"] == "pre" and pv["kind"] == 0:
+                if pv["v"] != e["v"]:
+                    bad.append(("values", "fiber %d received %s at label %d but %s was passed to resume" % (e["fid"], e["v"], e["l"], pv["v"])))
+            elif pv["t"] == "pre" and pv["kind"] in (2, 3):
+                if e["v"] != "nil":
+                    bad.append(("values", "fiber %d received %s from next" % (e["fid"], e["v"])))
+            elif pv["t"] in ("ev", "ret") and e["v"] == "nil":
                 stats["down_values_loop"] = stats.get("down_values_loop", 0) + 1
-            elif pv["t"] != "pre" or pv["kind"] == 1:
-                bad.append(("values", "label %d in fiber %d completed without a preceding resume (prev %r)" % (e["l"], e["fid"], pv)))
-            elif pv["kind"] == 0 and pv["v"] != e["v"]:
-                bad.append(("values", "fiber %d received %s at label %d but %s was passed to resume" % (e["fid"], e["v"], e["l"], pv["v"])))
-            elif pv["kind"] in (2, 3) and e["v"] != "nil":
-                bad.append(("values", "fiber %d received %s from next" % (e["fid"], e["v"])))
-        elif kind in ("resume", "cancel") or e["l"] in info["each"]:
-            if pv["t"] == "snd" and pv["sig"] >= 0 and "coerced" not in e["v"]:
+            else:
+                bad.append(("values", "label %d in fiber %d completed with %s without a preceding resume (prev %r)" % (e["l"], e["fid"], e["v"], pv)))
+        elif kind in ("resume", "cancel", "propagate") or e["l"] in info["each"]:
+            # UP: an instruction blocked on a child completes with what the child signalled or returned
+            if pv["t"] in ("snd", "ret") and "coerced" not in e["v"]:
                 stats["up_values"] = stats.get("up_values", 0) + 1
-                if kind == "cancel" and False:
-                    pass
-                if pv["v"] != e["v"] and not (kind is None and False):
+                if pv["t"] == "snd" and pv["sig"] == 4 and e["v"].startswith('"expected_string'):
+                    # a user0 signal whose payload is not a [tag value] tuple, caught by a `prompt`, whose destructuring
+                    # then raises: the error is what travels on
+                    stats["up_values_prompt_destructure"] = stats.get("up_values_prompt_destructure", 0) + 1
+                elif pv["v"] != e["v"]:
                     bad.append(("values", "fiber %d received %s at label %d but fiber %d had sent %s" % (e["fid"], e["v"], e["l"], pv["fid"], pv["v"])))
         elif kind == "next":
-            if pv["t"] == "snd" and pv["sig"] >= 0:
+            # exact: `next` answers nil iff the generator is not resumable afterwards, 0 otherwise
+            pr = last_pre.get((e["l"], e["fid"]))
+            if pr is not None and pr["target"] >= 0 and pr["target"] < len(e["snap"]) and "coerced" not in e["v"] and e["v"] in ("nil", "0"):
                 stats["next_values"] = stats.get("next_values", 0) + 1
-                want = "nil" if pv["sig"] in FIN else "0"
-                if e["v"] not in (want,) and "coerced" not in e["v"]:
-                    bad.append(("next", "next returned %s after signal %d" % (e["v"], pv["sig"])))
+                want = "nil" if st(e["snap"][pr["target"]]) in FIN | {ALIVE} else "0"
+                if e["v"] != want:
+                    bad.append(("next", "next returned %s but the generator's status is %d" % (e["v"], st(e["snap"][pr["target"]]))))
     # ---- R4 a signal is caught by the nearest fiber whose mask accepts it and changes no other fiber
     masks = {1: mask_of("a")}
     for e in ents:
@@ -148,6 +160,17 @@ def check(line, info, stats):
         changed = [j for j in range(len(s0)) if s0[j] != s1[j]]
         to_s = [j for j in changed if st(s1[j]) == s]
         other = [j for j in changed if st(s1[j]) != s]
+        # R7 coercion: a non-error signal becomes an error exactly when it has to leave a janet_call frame that is live in
+        # the fiber raising it (C frames of OTHER fibers do not count: every fiber entry resets the coercion flag)
+        if e["l"] and e["fid"] < len(s1):
+            mine = st(s1[e["fid"]])
+            if e["l"] in info["in_c"]:
+                stats["coerce_expected"] = stats.get("coerce_expected", 0) + 1
+                if mine != 1:
+                    bad.append(("coercion", "fiber %d raised signal %d at label %d inside a C frame but ends with status %d, not error" % (e["fid"], s, e["l"], mine)))
+            else:
+                if mine != s:
+                    bad.append(("coercion", "fiber %d raised signal %d at label %d with no C frame of its own live, but ends with status %d" % (e["fid"], s, e["l"], mine)))
         if any(st(s1[j]) == 1 for j in other) and s != 1:
             stats["sig_coerced"] = stats.get("sig_coerced", 0) + 1
             continue
